@@ -75,6 +75,11 @@ def build_matrix(pe, fam, shape, key, kind='obs', symmetric=False, base=None):
         M[0, 0] = int(round(float(vals[0, 0]))) or 2
         if n > 2 and m > 2:
             M[1, 2] = M[2, 1] = 1
+    if kind == 'mixednp' and n * m > 1:            # numpy-typed plain numbers: numpy integers of several widths (exact in double precision)
+        M[0, 0] = np.int64(int(round(float(vals[0, 0]))) or 2)
+        M[n - 1, m - 1] = np.int32(int(round(float(vals[n - 1, m - 1]))) or 3) if n * m > 2 else M[n - 1, m - 1]
+        if n > 2 and m > 2:
+            M[1, 2] = M[2, 1] = np.uint8(1)
     if kind == 'mixed00' and n * m > 1:            # the plain number sits at [0, 0] (and, for n > 2, at [1, 2] / [2, 1])
         M[0, 0] = float(vals[0, 0])
         if n > 2 and m > 2:
@@ -181,7 +186,7 @@ def build(tier, seed):
     sizes = (1, 2, 3) if tier == 'quick' else (1, 2, 3, 4)
     for fam in FAMILIES:
         for n in sizes:
-            for kind in ('obs', 'cobs', 'mixed', 'mixed00', 'mixedint'):
+            for kind in ('obs', 'cobs', 'mixed', 'mixed00', 'mixedint', 'mixednp'):
                 cases.append({'kind': 'square', 'fam': fam, 'n': n, 'ekind': kind})
             if n > 1:
                 for kind in ('mixed', 'mixed00'):
